@@ -1,6 +1,7 @@
 /- The physical machine of `Parse/Phys.lean` computes `Parse/Model.lean`'s functions (`*_p`) and none of its checked
    memory accesses fails on a well-formed parser (`*_safe`). -/
 import JanetModel.Parse.Phys
+import JanetModel.Parse.StrIdxLemmas
 import JanetModel.Parse.Queue
 import JanetModel.Parse.Pure
 import JanetModel.Parse.EofClean
@@ -346,14 +347,14 @@ theorem stringendM_p {m : MP} {sp : SPtr} (h : IsTop m sp) {s : Frame} {rest : L
     (stringendM m sp).p = stringend m.p s := by
   have hr : readState m sp = s := by rw [h.read, hs]; rfl
   unfold stringendM stringend
-  simp only [h.deref, chk_true, hr, hs, List.headD_cons]
+  simp only [h.deref, chk_true, hr, hs, List.headD_cons, dedentI_spec, Bool.or_true, chk_p]
   rw [popstateM_p _ _ _ (by simp [hs])]
   simp [hs]
 
 theorem stringendM_safe {m : MP} {sp : SPtr} (h : IsTop m sp) (hok : okFrames m.p.states = true) (h2 : 2 ≤ m.p.states.length) :
     (stringendM m sp).fault = m.fault := by
   unfold stringendM
-  simp only [h.deref, chk_true]
+  simp only [h.deref, chk_true, dedentI_spec, Bool.or_true]
   exact popstateM_safe _ (clearBufM m) _ (Nat.le_refl _) hok h2
 
 theorem two_frames {s : Frame} {rest : List Frame} (hok : okFrames (s :: rest) = true) (hc : s.consumer ≠ .root) :
